@@ -193,6 +193,10 @@ def h_vec(wh):
         helper = wh.WCSHelper.__new__(wh.WCSHelper)
         helper.wcs = fl
         helper.ra_dec_order = True
+        helper.refpix = (100.0, 80.0)
+        helper.pixscale = (-0.001, 0.001)
+        helper.beam = None
+        helper.psf_file = None
         x, y, r = real('x'), real('y'), real('r')
         th = angle_deg('th')
         c.assume(r.e > 0)
@@ -222,6 +226,10 @@ def h_ellipse(wh):
         helper = wh.WCSHelper.__new__(wh.WCSHelper)
         helper.wcs = fl
         helper.ra_dec_order = True
+        helper.refpix = (100.0, 80.0)
+        helper.pixscale = (-0.001, 0.001)
+        helper.beam = None
+        helper.psf_file = None
         x, y, sx, sy = real('x'), real('y'), real('sx'), real('sy')
         th = angle_deg('th')
         c.assume(sx.e > 0)
@@ -246,6 +254,10 @@ def h_psf(wh):
         helper = wh.WCSHelper.__new__(wh.WCSHelper)
         helper.wcs = fl
         helper.ra_dec_order = True
+        helper.refpix = (100.0, 80.0)
+        helper.pixscale = (-0.001, 0.001)
+        helper.beam = None
+        helper.psf_file = None
         helper.psf_file = None
         pa_, pb_ = real('sx'), real('sy')
         pt = angle_deg('th')
